@@ -880,3 +880,140 @@ func zeroGuarded(ret *ssa.Return) bool {
 	}
 	return false
 }
+
+// ---------------- ALIASGUARD ----------------
+
+func init() {
+	register("ALIASGUARD", "alias resolution cannot build a cyclic tree unnoticed: name-to-alias rewriting (the creation of a FieldReferenceExpr whose target comes from CheckCtx.GetNamedExpr) happens only inside Check methods, and in the validation of the select list every call that reaches a Check method is dominated by a call of a guard - a package function that consults the same name table (GetNamedExpr), reaches no Check, and whose error is returned when it is not nil (a reference cycle makes ReturnType recurse until the stack overflows, which cannot be recovered)", ruleAliasGuard)
+}
+
+func ruleAliasGuard(p *Prog, r *Result) {
+	vf := p.MethodByName("SelectStmt", "ValidateFields")
+	get := p.MethodByName("CheckCtx", "GetNamedExpr")
+	if vf == nil || get == nil {
+		r.undecided("anchor: (*SelectStmt).ValidateFields / (*CheckCtx).GetNamedExpr not found")
+		return
+	}
+	reachesCheck := func(f *ssa.Function) bool {
+		found := false
+		for _, g := range p.staticClosure(f, 3, nil) {
+			allInstrs(g, func(in ssa.Instruction) {
+				if c, ok := in.(ssa.CallInstruction); ok && c.Common().IsInvoke() && c.Common().Method.Name() == "Check" {
+					found = true
+				}
+			})
+		}
+		return found
+	}
+	reachesGet := func(f *ssa.Function) bool {
+		found := false
+		for _, g := range p.staticClosure(f, 3, nil) {
+			allInstrs(g, func(in ssa.Instruction) {
+				if c, ok := in.(ssa.CallInstruction); ok && c.Common().StaticCallee() == get {
+					found = true
+				}
+			})
+		}
+		return found
+	}
+	// (1) rewriting sites live in Check methods (or helpers called only from them)
+	nsites := 0
+	for _, fn := range p.Funcs {
+		allInstrs(fn, func(in ssa.Instruction) {
+			al, ok := in.(*ssa.Alloc)
+			if !ok || typeName(deref(al.Type())) != "FieldReferenceExpr" {
+				return
+			}
+			fromTable := false
+			for _, ref := range *al.Referrers() {
+				fa, ok := ref.(*ssa.FieldAddr)
+				if !ok {
+					continue
+				}
+				if _, f, _, _ := fieldOfAddr(fa); f != "FieldExpr" {
+					continue
+				}
+				for _, r2 := range *fa.Referrers() {
+					if st, ok := r2.(*ssa.Store); ok {
+						backward(st.Val, func(x ssa.Value) bool {
+							if c, ok := x.(*ssa.Call); ok && c.Call.StaticCallee() == get {
+								fromTable = true
+								return false
+							}
+							return true
+						})
+					}
+				}
+			}
+			if !fromTable {
+				return
+			}
+			nsites++
+			okv := fn.Name() == "Check"
+			if !okv {
+				// a helper: every static caller is a Check method
+				ncall := 0
+				okv = true
+				for _, caller := range p.Funcs {
+					allInstrs(caller, func(in2 ssa.Instruction) {
+						if c, ok := in2.(ssa.CallInstruction); ok && c.Common().StaticCallee() == fn {
+							ncall++
+							if caller.Name() != "Check" {
+								okv = false
+							}
+						}
+					})
+				}
+				okv = okv && ncall > 0
+			}
+			r.add(okv, fmt.Sprintf("site|%s#%d", p.FName(fn), nsites), p.InstrPos(al), "a name is rewritten into a reference to its alias only while an expression is checked")
+		})
+	}
+	r.floor("name-to-alias rewriting sites", nsites, 2)
+	// (2) the guard dominates every Check-reaching call of the select-list validation
+	var guards, checks []*ssa.Call
+	allInstrs(vf, func(in ssa.Instruction) {
+		c, ok := in.(*ssa.Call)
+		if !ok {
+			return
+		}
+		g := c.Call.StaticCallee()
+		if g == nil || !p.InPkg(g) {
+			if c.Call.IsInvoke() && c.Call.Method.Name() == "Check" {
+				checks = append(checks, c)
+			}
+			return
+		}
+		switch {
+		case reachesCheck(g):
+			checks = append(checks, c)
+		case reachesGet(g) && g.Signature.Results().Len() == 1 && isErrorType(g.Signature.Results().At(0).Type()):
+			// the error must be returned when it is not nil
+			returned := false
+			for _, b := range vf.Blocks {
+				ret := retOf(b)
+				if ret == nil || len(ret.Results) == 0 || retVal(ret, 0) != ssa.Value(c) {
+					continue
+				}
+				for _, a := range dominatingAtoms(b) {
+					if a.Op == token.NEQ && a.X == ssa.Value(c) && isNilConst(a.Y) {
+						returned = true
+					}
+				}
+			}
+			if returned {
+				guards = append(guards, c)
+			}
+		}
+	})
+	r.floor("Check-reaching calls in the select-list validation", len(checks), 1)
+	for i, c := range checks {
+		dom := false
+		for _, g := range guards {
+			if instrDominates(g, c) {
+				dom = true
+			}
+		}
+		r.add(dom, fmt.Sprintf("(*SelectStmt).ValidateFields|check#%d", i+1), p.InstrPos(c), "checking a select field (which resolves names to aliases) is preceded on every path by the alias-cycle guard, whose error ends the validation")
+	}
+}
